@@ -29,7 +29,11 @@ class Analysis:
         if k not in self._cache:
             g = CFG(fn.node)
             res = norm.Resolver(self.p, fn.module, fn.cls)
-            mf = MustFacts(g, call_writes=self.effects.call_writes_fn(fn), entry_facts=entry_facts, resolver=res)
+            try:
+                bd = {n: e for n, e in local_canon(fn).items() if isinstance(e, (ast.Compare, ast.BoolOp)) or (isinstance(e, ast.UnaryOp) and isinstance(e.op, ast.Not))}
+            except Exception:
+                bd = {}
+            mf = MustFacts(g, call_writes=self.effects.call_writes_fn(fn), entry_facts=entry_facts, resolver=res, bool_defs=bd)
             self._cache[k] = (g, mf, res)
         return self._cache[k]
 
